@@ -61,18 +61,12 @@ def wellformed_response(obj):
         has_r, has_e = "result" in obj, "error" in obj
         if has_r == has_e:
             return "2.0-response-result-error-not-exactly-one"
-        extra = set(obj) - {"jsonrpc", "id", "result", "error"}
-        if extra:
-            return "2.0-response-extra-members"
         if has_e:
             return wellformed_error(obj["error"])
         return None
     for k in ("result", "error", "id"):
         if k not in obj:
             return "1.0-response-missing-" + k
-    extra = set(obj) - {"id", "result", "error"}
-    if extra:
-        return "1.0-response-extra-members"
     if obj["error"] is None:
         return None
     if obj["result"] is not None:
